@@ -743,6 +743,9 @@ fn harnesses(def: &ModuleDef, vars: &[Vec<Field>], max_size: usize, max_align: u
     hdr(&mut o, "c03_one_size_one_alignment_c02_published_constants");
     writeln!(o, "        use std::mem::{{align_of, size_of}};").unwrap();
     writeln!(o, "        assert!(MAX_SIZE == {max_size}, \"C02: published capacity equals the capacity of the definition\");").unwrap();
+    // the uninitialised-storage type emitted next to the variants is one of the generated record types
+    writeln!(o, "        assert!(size_of::<RecordUninitialized<{{ MAX_SIZE }}>>() == size_of::<Record0>() && align_of::<RecordUninitialized<{{ MAX_SIZE }}>>() == align_of::<Record0>(), \"C03: RecordUninitialized vs variant 0 at the published capacity\");").unwrap();
+    writeln!(o, "        assert!(size_of::<RecordUninitialized<{{ MAX_SIZE + 1 }}>>() == size_of::<CappedRecord0<{{ MAX_SIZE + 1 }}>>() && align_of::<RecordUninitialized<{{ MAX_SIZE + 1 }}>>() == align_of::<CappedRecord0<{{ MAX_SIZE + 1 }}>>(), \"C03: RecordUninitialized vs variant 0 at a larger capacity\");").unwrap();
     for (k, fields) in vars.iter().enumerate() {
         writeln!(o, "        assert!(align_of::<Record{k}>() == {max_align}, \"C02/C03: record alignment is the definition's\");").unwrap();
         writeln!(o, "        assert!(size_of::<Record{k}>() == size_of::<Record0>() && align_of::<Record{k}>() == align_of::<Record0>(), \"C03: variant {k} vs variant 0 at the published capacity\");").unwrap();
